@@ -82,14 +82,14 @@ macro_rules! provided {
         if l.is_some() != (n > 0) || l.map_or(false, |e| !want.contains(&e)) {
             $crate::vbail!("mismatch", "{}.last() = {:?} with {} elements", $name, l, n);
         }
-        for p in [0, n / 2, n.saturating_sub(1), n] {
+        for p in [0, n / 2, n.saturating_sub(1), n, usize::MAX - 1, usize::MAX] {
             let mut it = $mk;
             let x = it.nth(p).map($idf);
             if x.is_some() != (p < n) {
                 $crate::vbail!("mismatch", "{}.nth({}) = {:?} with {} elements", $name, p, x, n);
             }
             let rest = it.len();
-            if rest != n.saturating_sub(p + 1) {
+            if rest != n.saturating_sub(p.saturating_add(1)) {
                 $crate::vbail!("mismatch", "{}: len() = {} after nth({}) of {}", $name, rest, p, n);
             }
             let tail: Vec<(u32, u32)> = $crate::alloc::harness(|| it.map($idf).collect());
